@@ -331,8 +331,8 @@ Print Assumptions C12_total_core_nameref_transform.
 (* FULL since /repo fix d64b8e2 (owner theorem re-exported). the formatter (Yaml/Fmt.v, C20) returns Ok on every
    node, schema and path, whatever the sort function; the model has no fuel, so it cannot Diverge *)
 Theorem C12_total_core_fmt_node :
-  forall nonstr kind api srt n s p,
-    exists n', Fmt.fmt_node nonstr srt kind api s p n = Ok n'.
+  forall nonstr hastype kind api srt n s p,
+    exists n', Fmt.fmt_node nonstr hastype srt kind api s p n = Ok n'.
 Proof. exact FmtProofs.fmt_no_panic. Qed.
 Print Assumptions C12_total_core_fmt_node.
 
